@@ -122,6 +122,46 @@ fn text_case(text: &str) {
     }
 }
 
+// Diagnostics about compound operands: every operand shape (applications with parenthesised
+// arguments in every position, operator chains with grouped operands, negations, conditionals, groups)
+// in every context that rejects an integer there, so that a diagnostic quoting the operand has to be
+// rendered from its recorded range. Oracle of C14: a non-empty error list, no panic.
+fn diagnosed_operand_sweep() -> Sweep {
+    const OPERANDS: [&str; 26] = [
+        "f 1 2", "f 1 (2)", "f (1) 2", "f (1) (2)", "f 1 (g 2)", "(f 1) 2", "(f 1) (2)", "g (1)", "g 1", "f (g 1) (g 2)", "1 + 2", "1 + (2)", "(1) + 2", "1 + (2) + (3)",
+        "1 * (2)", "1 * (2) * (3)", "1 - (2) - (3)", "1 / (2) / (3)", "-(1)", "-g 1", "(g 1) + (g 2)", "g 1 + g (2)", "if true then 1 else (2)", "(q : int = 1; q)",
+        "g (if true then 1 else 2)", "f 1 (q : int = 1; q)",
+    ];
+    const CONTEXTS: [&str; 8] = ["if @ then 1 else 2", "b : bool = @; 1", "k (@)", "(x : @) => x", "(@) < true", "if true then @ else true", "(y : int -> int) => y (k (@))", "@ -> int"];
+    const PREFIXES: [&str; 3] = [
+        "f : (int -> int -> int) = (a : int) => (b : int) => a + b; g : (int -> int) = (a : int) => a; k : (bool -> int) = (b : bool) => 1; ",
+        "f : (int -> int -> int) = (a : int) => (b : int) => a + b\ng : (int -> int) = (a : int) => a\nk : (bool -> int) = (b : bool) => 1\n",
+        "f : (int -> int -> int) = (a : int) => (b : int) => a + b; g : (int -> int) = (a : int) => a; k : (bool -> int) = (b : bool) => 1; é = 1; ",
+    ];
+    Sweep::new(
+        "diagnostics about compound operands (every operand shape in every rejecting context)",
+        (OPERANDS.len() * CONTEXTS.len() * PREFIXES.len()) as u64,
+        |idx| {
+            let i = idx as usize;
+            let text = format!("{}{}", PREFIXES[i % 3], CONTEXTS[(i / 3) % 8].replace('@', OPERANDS[i / 24]));
+            count!("evaluations");
+            count!("diagnosed_operands");
+            match library_verdict(&text, 3) {
+                Ok(true) => count!("diagnosed_operand_accepted"),
+                Ok(false) => {
+                    count!("lib_rejected");
+                    count!("nontrivial");
+                }
+                Err((sub, what)) => violation(&sub, &text, "Err(non-empty errors), no panic", &what),
+            }
+        },
+        |idx| {
+            let i = idx as usize;
+            format!("{}{}", PREFIXES[i % 3], CONTEXTS[(i / 3) % 8].replace('@', OPERANDS[i / 24]))
+        },
+    )
+}
+
 fn strings_sweep(name: &str, alpha: Vec<&'static str>, min: usize, max: usize) -> Sweep {
     let seqs = Seqs::with_min(alpha.len(), min, max);
     let s2 = seqs.clone();
@@ -424,13 +464,14 @@ impl Prop for C14 {
             };
             v.push(edits_sweep_over(&format!("slice {name}"), sg, lo, hi));
         }
+        v.push(diagnosed_operand_sweep());
         v.push(cli_sweep(tier));
         v
     }
     fn evidence(&self, tier: Tier) -> EvidenceSpec {
         EvidenceSpec {
             level: "exploration",
-            rule: "in-process, in isolated workers with a 16 MiB stack: every string up to the C09 bounds through tokenize+parse (and type_check when they parse); every token sequence up to length 4/5 over all 29 token symbols (28 kinds + line-break terminator, so also streams tokenize never emits) and of length 5/6 over a 21-symbol class alphabet through parse; every sentence of grammar.y up to 5/7 tokens (class alphabet) with every single-token deletion, substitution (29 kinds) and insertion (29 kinds at every position), and the same edits of every sentence of six sub-grammar slices (binders, definition groups, groups in binder domains to 9/11 tokens, conditionals with groups to 9/10, arithmetic and applications to 7/8), where an edit leaves a recovered error deep inside an otherwise complete tree. Each stage must return Ok or a non-empty error list, never panic, never abort, never exceed the watchdog. Process level: the real `gram check` binary on every byte string of length <= 1, every pair over a byte class alphabet (quick) / all 65536 pairs (thorough), the examples and single-byte invalid-UTF-8 mutations of them, an empty file, a missing file and a directory: exit 0 with output and no stderr, or exit 1 with no output and an [Error] diagnostic; and the verdict must agree with the in-process pipeline. non-trivial = inputs that reach name resolution or beyond, and launches that satisfied the contract".to_owned(),
+            rule: "in-process, in isolated workers with a 16 MiB stack: every string up to the C09 bounds through tokenize+parse (and type_check when they parse); every token sequence up to length 4/5 over all 29 token symbols (28 kinds + line-break terminator, so also streams tokenize never emits) and of length 5/6 over a 21-symbol class alphabet through parse; every sentence of grammar.y up to 5/7 tokens (class alphabet) with every single-token deletion, substitution (29 kinds) and insertion (29 kinds at every position), and the same edits of every sentence of six sub-grammar slices (binders, definition groups, groups in binder domains to 9/11 tokens, conditionals with groups to 9/10, arithmetic and applications to 7/8), where an edit leaves a recovered error deep inside an otherwise complete tree; 624 programs in which the checker has to quote a compound operand (26 operand shapes: applications with parenthesised arguments in every position, operator chains with grouped operands, negations, conditionals, groups; in 8 contexts that reject an integer there; 3 layouts). Each stage must return Ok or a non-empty error list, never panic, never abort, never exceed the watchdog. Process level: the real `gram check` binary on every byte string of length <= 1, every pair over a byte class alphabet (quick) / all 65536 pairs (thorough), the examples and single-byte invalid-UTF-8 mutations of them, an empty file, a missing file and a directory: exit 0 with output and no stderr, or exit 1 with no output and an [Error] diagnostic; and the verdict must agree with the in-process pipeline. non-trivial = inputs that reach name resolution or beyond, and launches that satisfied the contract".to_owned(),
             assumptions: vec![
                 "token sequences that parse are also type checked in-process unless the reference finds a divergent piece in them (counted as skipped_divergent); an abnormal ending after that pre-screen is a violation".to_owned(),
                 "NO_COLOR=1 (as the repository's CI)".to_owned(),
